@@ -248,6 +248,59 @@ func rulePack(c *Ctx) *RuleResult {
 		"unpacker":  p.Func("lib/stringlib", "(*unpacker).align"),
 		"packsizer": p.Func("lib/stringlib", "(*packsizer).align"),
 	}
+	// (d) the variable-width helpers keep the signedness of their option: everything
+	// (*unpacker).readVarUint reads from the wire and (*packer).packUint writes is of an
+	// unsigned integer type (the signed siblings are free to use either: sign extension
+	// of wide fields goes through uint64)
+	for _, hn := range [][2]string{{"(*unpacker).readVarUint", "read"}, {"(*packer).packUint", "write"}} {
+		h := p.Func("lib/stringlib", hn[0])
+		if h == nil {
+			r.broken("anchor unresolved: lib/stringlib.%s", hn[0])
+			continue
+		}
+		n, bad := 0, ""
+		forEachInstr(h, func(ins ssa.Instruction) {
+			call, ok := ins.(*ssa.Call)
+			if !ok {
+				return
+			}
+			cal := call.Call.StaticCallee()
+			if cal == nil {
+				return
+			}
+			var v ssa.Value
+			switch {
+			case p.InModule(cal) && cal.Name() == hn[1] && len(call.Call.Args) == 3:
+				v = call.Call.Args[2]
+			case fullName(cal) == "encoding/binary.Read" || fullName(cal) == "encoding/binary.Write":
+				v = call.Call.Args[2]
+			default:
+				return
+			}
+			if mi, ok := v.(*ssa.MakeInterface); ok {
+				v = mi.X
+			}
+			t := v.Type()
+			if pt, ok := t.(*types.Pointer); ok {
+				t = pt.Elem()
+			}
+			bt, ok := t.Underlying().(*types.Basic)
+			if !ok || bt.Info()&types.IsInteger == 0 {
+				return
+			}
+			n++
+			if bt.Info()&types.IsUnsigned == 0 {
+				bad = t.String() + " at " + p.InstrPos(ins)
+			}
+		})
+		if n == 0 {
+			r.broken("%s: no integer read/write found (anchor moved?)", hn[0])
+		} else if bad == "" {
+			r.ok(fmt.Sprintf("(d) %s only moves unsigned integers (%d sites)", hn[0], n))
+		} else {
+			r.fail("unsigned-helper-uses-signed-type:"+hn[0], bad[strings.Index(bad, " at ")+4:], fmt.Sprintf("lib/stringlib.%s moves a value of the signed type %s: the unsigned option it serves (I[n], s[n] length prefixes) is then sign-extended, so values with the top bit set do not round-trip", hn[0], bad[:strings.Index(bad, " at ")]))
+		}
+	}
 	ref := ""
 	for _, n := range []string{"packer", "packsizer", "unpacker"} {
 		f := aligns[n]
